@@ -371,7 +371,8 @@ TRUSTED_BASE = [
 ]
 
 
-def standard_build(res, prop, group=None, harness_bin=None, coq_targets=None, debug_harness=False, model_deps=None):
+def standard_build(res, prop, group=None, harness_bin=None, coq_targets=None, debug_harness=False, model_deps=None,
+                   tablegen_groups=None):
     """tablegen -> coq -> assumptions -> hygiene -> extraction -> cargo.  Records obligations
     in res; returns dict of stage flags.  Broken obligations become violations only after the
     caller has searched for a failing input (see decide())."""
@@ -382,7 +383,15 @@ def standard_build(res, prop, group=None, harness_bin=None, coq_targets=None, de
         st["tablegen"] = ok
         res.notes["tablegen_s"] = round(dt, 1)
         if not ok:
-            st["broken"].append({"obligation": "tablegen", "detail": out[-3000:]})
+            # only the groups this property depends on count (other builders' groups may be in flux;
+            # a group whose tables the property's theories import still fails the Coq build below)
+            bad_groups = re.findall(r"TABLEGEN-ERROR group=(\w+)", out)
+            relevant = [g for g in bad_groups if tablegen_groups is None or g in tablegen_groups]
+            if relevant or not bad_groups:
+                st["broken"].append({"obligation": "tablegen", "groups": relevant, "detail": out[-3000:]})
+            else:
+                st["tablegen"] = True
+                res.notes["tablegen_unrelated_errors"] = bad_groups
         targets = coq_targets or ["theories/Properties/%s.vo" % prop]
         ok, out, dt, failed = stage_coq(targets)
         st["coq"] = ok
